@@ -173,6 +173,56 @@ def h_jws_header(ctx):
     return Outcome("|".join(sorted(set(bs))), vs, nontrivial=(what, tuple(algs)[:2]), n=len(bs))
 
 
+# ------------------------------------------------------------------ a key set in which two keys share one kid (RFC 7517 4.5 allows it), named by a hostile token
+ALG_VALUES = ["HS999", "hs256", "RS256 ", "", "none", "ECDH-SS", "A128KWX", None, 7, True, ["HS256"], {"alg": "HS256"}, "<deleted>", "HS256", "RS256", "A128KW", "dir"]
+
+
+def h_shared_kid(ctx):
+    from joserfc.jwk import KeySet
+    scen.register_drafts()
+    family = ctx.choose("family", ["jws", "jwe"])
+    v = ctx.choose("alg_value", ALG_VALUES)
+    held = ctx.choose("set_given", ["directly", "through a callable"])
+    oct_jwk, rsa_jwk = scen.key("oct32"), scen.key("rsa")
+    ks = KeySet([A.jkey({**oct_jwk, "kid": "shared"}, "dict"), A.jkey({**rsa_jwk, "kid": "shared"}, "dict"), A.jkey({**scen.key("oct16"), "kid": "other"}, "dict")])
+    key = ks if held == "directly" else (lambda obj: ks)
+    vs, bs = [], []
+    cls = f"{family} alg = JSON {type(v).__name__ if v != '<deleted>' else 'deleted'}, the token names a kid that two keys of the set share"
+    if family == "jws":
+        path = ctx.choose("path", JWS_PATHS)
+        pos = ctx.choose("position", ["protected"] + (["unprotected"] if path in ("flattened", "general", "7797-flattened") else []))
+        prot = {"kid": "shared", "typ": "JWT"}
+        if path.startswith("7797"):
+            prot.update({"b64": False, "crit": ["b64"]})
+        hdr = None
+        if v != "<deleted>":
+            if pos == "protected":
+                prot["alg"] = v
+            else:
+                hdr = {"alg": v}
+        tok = build_jws("HS256", "oct32", path, prot, hdr, CLAIMS if not path.startswith("7797") else b"hello-World_7")
+        what = f"jws {path} alg:={v!r} ({pos}), kid shared by an oct and an RSA key, set given {held}"
+        for ename, ep in jws_entries(path):
+            b, v1 = judge(ename, call(ep, copy.deepcopy(tok), key, scen.JWS_ALL + ["none"]), what, cls)
+            bs.append(b)
+            vs += v1
+    else:
+        form = ctx.choose("form", ["compact", "flattened", "general"])
+        t = jwe_seed("A128KW", "oct16", "A128GCM", form)
+        prot = {k: x for k, x in t["protected"].items() if k != "alg"}
+        prot["kid"] = "shared"
+        if v != "<deleted>":
+            prot["alg"] = v
+        t["recipients"] = [({k: x for k, x in (h or {}).items() if k != "alg"} or None, ek) for h, ek in t["recipients"]]
+        tok = jwe_wire(t, form, prot_text=rjws.hdr_json(prot))
+        what = f"jwe {form} alg:={v!r}, kid shared by an oct and an RSA key, set given {held}"
+        for ename, ep in jwe_entries(form, False):
+            b, v1 = judge(ename, call(ep, copy.deepcopy(tok), key, scen.JWE_ALL, None), what, cls)
+            bs.append(b)
+            vs += v1
+    return Outcome("|".join(sorted(set(bs))), vs, nontrivial=(what,), n=len(bs))
+
+
 # ------------------------------------------------------------------ JWE seeds
 JWE_SEEDS = [("dir", "oct16", "A128GCM"), ("A128KW", "oct16", "A128CBC-HS256"), ("RSA-OAEP", "rsa", "A128GCM"), ("RSA1_5", "rsa", "A128GCM"),
              ("ECDH-ES", "P-256", "A128GCM"), ("ECDH-ES", "X25519", "A128CBC-HS256"), ("ECDH-ES+A128KW", "P-384", "A128GCM"),
@@ -751,6 +801,7 @@ def h_threads(ctx):
 
 PARTS = [
     Part("key-mismatch", h_key_mismatch, split_depth=3),
+    Part("a-kid-that-two-keys-share", h_shared_kid, split_depth=2),
     Part("jws-header-values", h_jws_header, bound={"quick": 1, "thorough": 1}, split_depth=3),
     Part("jwe-header-values", h_jwe_header, bound={"quick": 1, "thorough": 1}, split_depth=3),
     Part("compact-segments", h_segments, bound={"quick": 1, "thorough": 1}, split_depth=2),
